@@ -565,10 +565,14 @@ def _probe_engine(name, conn):
 
 def usable_engines():
     """every pysat SAT engine name (first alias) that RC2 can drive, as 'rc2-<name>'"""
+    return [e for e, good in probe_engines().items() if good]
+
+
+def probe_engines():
     from pysat.solvers import SolverNames
 
     ctx = mp.get_context("fork")
-    ok = []
+    ok = {}
     for attr in sorted(k for k in vars(SolverNames) if not k.startswith("_")):
         short = getattr(SolverNames, attr)[0]
         parent, child = ctx.Pipe(duplex=False)
@@ -584,8 +588,7 @@ def usable_engines():
         p.join(5)
         if p.is_alive():
             p.kill()
-        if good:
-            ok.append("rc2-" + short)
+        ok["rc2-" + short] = good
     return ok
 
 
@@ -646,7 +649,8 @@ def run(tier, seed):
     engines = list(QUICK_ENGINES)
     if thorough:
         # 'rc2' is the default spelling of rc2-g3; keep both spellings
-        engines = list(QUICK_ENGINES) + [e for e in usable_engines() if e not in QUICK_ENGINES]
+        probed = probe_engines()
+        engines = list(QUICK_ENGINES) + [e for e, good in probed.items() if good and e not in QUICK_ENGINES]
 
     # Part 1
     s2 = [(ATOMS2, t) for t in _s2_realisations()]
@@ -705,6 +709,7 @@ def run(tier, seed):
         "part2_evaluations": r2["evaluations"],
         "part2_fingerprints": len(r2["fingerprints"]),
         "bases_per_engine": dict(per_engine),
+        "engines_unusable_in_plain_pysat_rc2": [e for e, good in probed.items() if not good] if thorough else "not probed",
         "stats": dict(stats),
     }
     return res
